@@ -22,4 +22,29 @@ def quality (I : Inst) (score : Nat) : Nat × Nat := (numReal I * W - score, num
 def combined (I : Inst) (score : Nat) (extInstr : Nat) (extPen : List Nat) : Nat × Nat :=
   (numReal I * W - score + extPen.sum, numReal I + extPen.length + extInstr)
 
+/-- `INSTRUCTOR_SCORE` of caobab.rs equals `WEIGHT_OFFSET` -/
+def INSTRUCTOR_SCORE : Nat := W
+
+/-- one iteration of the loop of `AssignmentQualityInfo::from_caobab_assignment`; the accumulator
+    is (number_instructors, assigned_course_choice_penalties) -/
+def fromAssignmentStep (I : Inst) (a : Nat → Option Nat) (unassigned unfulfilled : Nat)
+    (acc : Nat × List Nat) (p : Nat) : Nat × List Nat :=
+  match a p with
+  | some c =>
+    if I.instructs p c then
+      (if I.hasChoices p then (acc.1 + 1, acc.2) else acc)
+    else
+      match (I.part p).choices.find? (fun ch => ch.course == c) with
+      | some ch => (acc.1, acc.2 ++ [ch.penalty])
+      | none => (acc.1, acc.2 ++ [unfulfilled])
+  | none => if I.hasChoices p then (acc.1, acc.2 ++ [unassigned]) else acc
+
+/-- `AssignmentQualityInfo::from_caobab_assignment`: (number_instructors, penalties in push order) -/
+def fromAssignment (I : Inst) (a : Nat → Option Nat) (unassigned unfulfilled : Nat) : Nat × List Nat :=
+  (List.range I.P).foldl (fromAssignmentStep I a unassigned unfulfilled) (0, [])
+
+/-- `AssignmentQualityInfo::get_quality` as (numerator, denominator) -/
+def getQuality (q : Nat × List Nat) : Nat × Nat :=
+  (q.1 * (W - INSTRUCTOR_SCORE) + q.2.sum, q.2.length + q.1)
+
 end QM
